@@ -146,7 +146,8 @@ def check(run):
                 why = 'the full microsecond tick count (%s) is narrowed to 32 bits before it is split: timestamps wrap after 2^32 us (71.6 simulated minutes) and go backwards' % t[:90]
         sig_ts[kind] = txts
         # the value that is split is the virtual clock reading counted from the clock's own epoch: besides now() no
-        # stored time point, member or other reading may enter it (a capture opened at t>0 must not shift its records)
+        # stored time point, member or other reading may enter it (a capture opened at t>0 must not shift its records). Calls are not judged
+        # here: a helper the split is moved into is read through by the renderer, and ambient clocks are C01's forbidden-API rule
         foreign = []
         for g, n in casts32:
             t = q.render(g, n['e'], names=tn.get(id(g)))
@@ -166,10 +167,6 @@ def check(run):
                             continue
                         if r_ and 'now' not in r_ and 'chrono' not in r_ and r_ not in foreign:
                             foreign.append(r_)
-                    elif x_['k'] == 'call':
-                        cn_ = q.callee_name(x_) or ''
-                        if not any(w in cn_ for w in ('chrono', 'duration', 'time_point', 'operator', 'seconds', 'microseconds', 'milliseconds')) and cn_ not in foreign:
-                            foreign.append(cn_ + '()')
         run.check(not foreign, 'R14', 'timestamp-from-epoch', PC + '::log_' + kind, f.loc(),
                   'the record timestamp is computed from %s besides the virtual clock reading: records are no longer stamped with the virtual send time counted from the fixed capture epoch (e.g. a capture opened at t>0 shifts every record)' % ', '.join(foreign[:3]),
                   'only high_resolution_clock::now() and constants enter the timestamp')
